@@ -972,7 +972,8 @@ class Gen:
         if choice == 4 and is_data(T) and not has_tvars(T):
             # a statically typed block inside the untyped code
             self.features.add("hole:contains-typed-block")
-            sub = self.gen(T, [(x, t, True) for (x, t) in uenv if is_data(t)], max(1, n - 1), True)
+            # variables bound by the untyped code itself (u..) are Dyn for the typechecker
+            sub = self.gen(T, [(x, t, True) for (x, t) in uenv if is_data(t) and not x.startswith("u")], max(1, n - 1), True)
             if sub is not None:
                 return ("annt", sub, T)
         if k == "num":
@@ -1237,6 +1238,10 @@ class Gen:
             m = r.range(1, min(4, max(1, n - 1)))
             es = [self.gen(T[1], env, p, known) for p in self.split(n - 1, m)]
             return None if None in es else ("arr", tuple(es))
+        if k in ("dict", "arr") and not has_tvars(T) and n >= 4 and r.chance(1, 4):
+            t = self.s_subsume(T, env, n, known)
+            if t is not None:
+                return t
         if k == "dict":
             m = r.range(1, min(3, max(1, n - 1)))
             fs = r.shuffle(FIELDS)[:m]
@@ -1274,6 +1279,40 @@ class Gen:
         if k == "dyn":
             return self.hole(DYN, env, min(n, 8))
         return None
+
+    def s_subsume(self, T, env, n, known):
+        """let x : <record type> = .. in <x used where the dictionary type T (or Array of it) is expected>:
+        the implicit record-to-dictionary coercion, alone or under Array (covariance)."""
+        r = self.rng
+
+        def narrow(t):
+            if t[0] == "dict":
+                return mk_rec([(f, t[1]) for f in r.shuffle(FIELDS)[:r.range(1, 3)]])
+            if t[0] == "arr":
+                inner = narrow(t[1])
+                return None if inner is None else ("arr", inner)
+            return None
+        R = narrow(T)
+        if R is None:
+            return None
+        a, b = self.split(n - 2, 2)
+        e = self.gen(R, env, a, True)
+        if e is None:
+            return None
+        x = self.fresh("v")
+        self.features.add("subsumption:record-to-dict" + (":under-array" if T[0] == "arr" else ""))
+        env2 = env + [(x, R, True)]
+        if known and r.chance(1, 2):
+            use = ("var", x)
+        elif T[0] == "dict" and r.chance(1, 2):
+            k2 = self.gen(STR, env2, 1, True)
+            v2 = self.gen(T[1], env2, max(1, b - 3), True)
+            if k2 is None or v2 is None:
+                return None
+            use = _apps(("stdref", "std.record.insert"), [k2, v2, ("var", x)])
+        else:
+            use = ("annt", ("var", x), T)
+        return ("let", x, R, e, use)
 
     def arms_for(self, E, T, env, n, known, exact=True):
         """Exhaustive arms for a scrutinee of enum type E, bodies of type T."""
@@ -1508,7 +1547,8 @@ class Gen:
         parts = self.split(n - 1, k) if k else []
         for a, p in zip(args, parts):
             at = subst(a, s)
-            e = self.gen(at, env, p, not has_metas(a))
+            # `{_ : ?a}`: the typechecker knows it wants a dictionary even if not of what
+            e = self.gen(at, env, p, not has_metas(a) or (a[0] == "dict" and not needs_known(at[1])))
             if e is None:
                 return None
             term = ("app", term, e)
@@ -1577,8 +1617,9 @@ class Gen:
                 if match_ty(peel(fty, k)[1], T, {}):
                     usable.append((name, pty, body))
                     break
-        if not usable:
-            return None
+        direct = bool(usable) and r.chance(2, 3)
+        if not direct:
+            usable = temps
         name, pty, fallback = r.choice(usable)
         vs, bty = strip_foralls(pty)
         a, b = self.split(n - 1, 2)
@@ -1592,7 +1633,22 @@ class Gen:
             self.features.add("poly-body:template")
         fvar = self.fresh("f")
         self.features.add("poly:" + name)
-        use = self.gen_using(fvar, pty, T, env + [(fvar, pty, True)], b, known)
+        env2 = env + [(fvar, pty, True)]
+        if direct:
+            use = self.gen_using(fvar, pty, T, env2, b, known)
+        else:
+            # call it at some instance, bind the result, go on with T
+            fty, metas = self.instantiate(pty)
+            s = {}
+            self.fill_metas(metas, s, fty, env)
+            RT = subst(peel(fty, arity(fty))[1], s)
+            b1, b2 = self.split(b, 2)
+            call = self.app_of([(("var", fvar), pty)], RT, env2, b1, False)
+            if call is None:
+                return None
+            x = self.fresh("v")
+            rest = self.gen(T, env2 + [(x, RT, False)], b2, known)
+            use = None if rest is None else ("let", x, None, call, rest)
         if use is None:
             return None
         return ("let", fvar, pty, body, use)
@@ -1964,13 +2020,15 @@ def parse_span(s):
 def region_of(prog, s, e):
     """'typed' / 'untyped' / 'outside' for a span of the program text (innermost region wins)."""
     best = None
-    for kind, regs in (("typed", prog.typed_regions), ("untyped", prog.untyped_regions)):
+    # on equal spans the hole wins: `let x : T = (u | T)` prints the bound expression and the hole
+    # with the same extent, and the hole is the inner one
+    for kind, regs in (("untyped", prog.untyped_regions), ("typed", prog.typed_regions)):
         for (a, b) in regs:
             if a <= s and e <= b:
                 if best is None or (b - a) < best[0]:
                     best = (b - a, kind)
     if best is None:
-        for kind, regs in (("typed", prog.typed_regions), ("untyped", prog.untyped_regions)):
+        for kind, regs in (("untyped", prog.untyped_regions), ("typed", prog.typed_regions)):
             for (a, b) in regs:
                 if a <= s < b:
                     if best is None or (b - a) < best[0]:
@@ -2460,7 +2518,7 @@ def main(argv):
     for name in sorted(ck.stats):
         h = ck.stats[name]
         print("== %s" % name)
-        for k, v in sorted(h.items(), key=lambda kv: (-kv[1], kv[0]))[:80]:
+        for k, v in sorted(h.items(), key=lambda kv: (-kv[1], kv[0]))[:250]:
             print("   %6d  %s" % (v, k))
     print("== samples")
     for s in ck.samples:
